@@ -56,7 +56,7 @@ EXTRA_INSTANCE_CONFIGS = {"ascii_11x13": _small_env}
 class M(Model):
     ENV = "PacMan"
     # AsciiGenerator is documented as deterministic: the same map on every reset
-    DETERMINISTIC_CONFIGS = ("tNone", "t7", "t3", "t1", "t40", "ascii_11x13", "small30", "small200", "tunnel60")
+    DETERMINISTIC_CONFIGS = ("tNone", "t7", "t3", "t1", "t40", "ascii_11x13", "small30", "small200", "tunnel60", "tunnel120")
 
     def __init__(self, b):
         super().__init__(b)
@@ -103,6 +103,45 @@ class M(Model):
             out[a] = grid[self._target(s, a)] == 1
         out[4] = True  # not asserted (mask_guard): a no-op is always executable
         return out
+
+    def solve_action(self, s, r=0):
+        """Driver hook ('solve' plan mode): first move of a shortest path (with wrap-around) to the nearest pellet or
+        power-up that keeps clear of the ghosts' cells and their neighbours; None when there is none -> legal
+        fallback.  r only breaks ties between equally short first moves."""
+        from collections import deque
+
+        if not self._usable(s):
+            return None
+        grid = np.asarray(s.grid)
+        goals = {(int(q[1]), int(q[0])) for q in self._live(s, s.pellet_locations)}
+        goals |= {(int(q[1]), int(q[0])) for q in self._live(s, s.power_up_locations)}
+        if not goals:
+            return None
+        danger = set()
+        if int(np.asarray(s.frightened_state_time)) <= 1:
+            for g in np.asarray(s.ghost_locations).astype(int).reshape(-1, 2):
+                gr, gc = int(g[1]), int(g[0])
+                danger.add((gr, gc))
+                for dr, dc in MOVES:
+                    danger.add(((gr + dr) % self.X, (gc + dc) % self.Y))
+        start = self._player(s)
+        order = [(int(r) + i) % 4 for i in range(4)]
+        seen = {start: None}
+        dq = deque([start])
+        while dq:
+            cur = dq.popleft()
+            if cur in goals and cur != start:
+                while seen[cur][0] != start:
+                    cur = seen[cur][0]
+                return seen[cur][1]
+            for a in order:
+                dr, dc = MOVES[a]
+                nxt = ((cur[0] + dr) % self.X, (cur[1] + dc) % self.Y)
+                if nxt in seen or grid[nxt] != 1 or nxt in danger:
+                    continue
+                seen[nxt] = (cur, a)
+                dq.append(nxt)
+        return None
 
     def mask_guard(self, s):
         # entry 4 (no-op) is hard-wired to False although a no-op is executable; the docs define the
